@@ -10,7 +10,7 @@ import (
 // fnPath is one acyclic entry-to-exit path of a small function.
 type fnPath struct {
 	blocks []*ssa.BasicBlock
-	conds  []edgeCond // condition of every If passed, with the edge taken
+	conds  []edgeCond      // condition of every If passed, with the edge taken
 	exit   ssa.Instruction // Return or Panic
 }
 
